@@ -362,6 +362,13 @@ func VerifC19_KData() {
 		"(set 'car (lambda (a b) 1))\n(car%ARGS%)",
 		"(set 'car (lambda (a b) 1))\n(defun g () (car%ARGS%))\n(g)",
 		"(set 'car 5)\n(list car%ARGS%)",
+		// lists nested INSIDE quoted data and bracket lists are data too
+		"'((car%ARGS%))",
+		"(length '(a (b (car%ARGS%))))",
+		"[(car%ARGS%)]",
+		"(list ''(x (car%ARGS%)))",
+		// the longhand spelling of the rebinding
+		"(set (quote car) (lambda (a b) 1))\n(car%ARGS%)",
 	}
 	fi := vndChoice("form", len(forms))
 	k := vndInt("k")
